@@ -593,4 +593,7 @@ Opts_Mid == Opts_Narrow \cup {OptM(TRUE, TRUE, FALSE, FALSE, FALSE, FALSE, TRUE,
                               OptM(TRUE, TRUE, FALSE, FALSE, FALSE, FALSE, FALSE, 384),
                               Opt(FALSE, TRUE, TRUE, FALSE, FALSE, FALSE), Opt(TRUE, TRUE, FALSE, FALSE, TRUE, FALSE),
                               Opt(TRUE, FALSE, FALSE, FALSE, FALSE, TRUE)}
+\* open options of the deep generation configs (two paths, so keep the set small)
+Opts_Deep == Opts_Narrow \cup {OptM(TRUE, TRUE, FALSE, FALSE, FALSE, FALSE, TRUE, 416),
+                               OptM(TRUE, TRUE, FALSE, TRUE, FALSE, FALSE, FALSE, 432)}
 =============================================================================
